@@ -25,6 +25,7 @@
 import PrologVerif.Proofs.RelErrors
 import PrologVerif.Proofs.RelList
 import PrologVerif.Proofs.Utf8
+import PrologVerif.Proofs.RelUnify
 namespace PrologVerif.C16
 open PrologVerif PrologVerif.Rel PrologVerif.Relations
 
@@ -750,6 +751,628 @@ theorem C16_text_encode_injective {a b : List Char} (h : Utf8.encode a = Utf8.en
 example : Utf8.concatSplitsBytes (Utf8.encode "é€".toList) =
     [([], [0xC3, 0xA9, 0xE2, 0x82, 0xAC]), ([0xC3, 0xA9], [0xE2, 0x82, 0xAC]), ([0xC3, 0xA9, 0xE2, 0x82, 0xAC], [])] := by
   decide +kernel
+
+/-! ## functor/3 -/
+
+/-- functor/3 in every mode: inspecting a term (any term, ground or not) and constructing the most
+    general term `name(_,…,_)`.  `hwf`: the inspected term, if compound, has an argument. -/
+theorem C16_functor_exact {t name arity : Term} {ans : Answers}
+    (hwf : ∀ f, t ≠ .app f .nil) (h : Rel.functor t name arity = .ok ans) :
+    ExactInst functorT [t, name, arity] ans := by
+  unfold Rel.functor at h
+  simp only at h
+  split at h
+  · -- construction
+    rename_i tv
+    split at h
+    · cases h
+    · rename_i n
+      split at h
+      · cases h
+      · rename_i hn
+        split at h
+        · cases h
+        · cases h
+        · rename_i hnv hnc
+          split at h
+          · -- arity 0: T = name
+            rename_i h0
+            cases h
+            subst h0
+            have hat : isAtomic name = true := by
+              cases name <;> simp_all [isAtomic, isVar, isCompound]
+            have hg := groundT_of_isAtomic hat
+            have hans : [Term.var tv, name, Term.int 0].map (substT (bind1 tv name)) = [name, name, .int 0] := by
+              simp [substT, bind1, substT_ground _ _ hg]
+            rw [hans]
+            refine ⟨?_, ?_, by simp⟩
+            · intro a ha; simp at ha; subst ha
+              refine ⟨?_, ⟨bind1 tv name, hans.symm⟩⟩
+              cases name <;> simp_all [functorT, isAtomic, isVar, isCompound]
+            · rintro a hr ⟨σ, rfl⟩
+              refine ⟨[name, name, .int 0], by simp, ?_⟩
+              simp only [List.map, substT_int, substT_ground _ _ hg] at hr ⊢
+              cases hs : σ tv <;> simp [functorT, hs, substT] at hr ⊢
+              all_goals (try (rw [hs]))
+              all_goals (try (simp [hr.2]; exact IsInstance.refl _))
+              · obtain ⟨h1, _, h3⟩ := hr; omega
+          · rename_i h0
+            split at h
+            · rename_i f
+              split at h
+              · cases h
+              · rename_i hlim
+                cases h
+                have hn0 : 0 < n := by omega
+                have hlen : (freshVars (boundL [Term.var tv, Term.atom f, Term.int n]) n.toNat).length = n.toNat := by
+                  simp [freshVars]
+                generalize hF : freshVars (boundL [Term.var tv, Term.atom f, Term.int n]) n.toNat = F at hlen
+                have hans : [Term.var tv, Term.atom f, Term.int n].map (substT (bind1 tv (.app f (Args.ofList F)))) =
+                    [.app f (Args.ofList F), .atom f, .int n] := by
+                  simp [substT, bind1]
+                rw [hans]
+                refine ⟨?_, ?_, by simp⟩
+                · intro a ha; simp at ha; subst ha
+                  refine ⟨?_, ⟨_, hans.symm⟩⟩
+                  simp only [functorT, length_ofList, hlen, Int.ofNat_eq_natCast]
+                  refine ⟨by omega, trivial, ?_⟩
+                  congr 1; omega
+                · rintro a hr ⟨σ, rfl⟩
+                  refine ⟨[.app f (Args.ofList F), .atom f, .int n], by simp, ?_⟩
+                  simp only [List.map, substT_int, substT_atom] at hr ⊢
+                  cases hs : σ tv <;> simp [functorT, hs, substT, isAtomic, isVar, isCompound] at hr ⊢
+                  all_goals (try omega)
+                  rename_i f' as'
+                  obtain ⟨_, hf, hn'⟩ := hr
+                  subst hf
+                  have hl : as'.toList.length = F.length := by
+                    rw [hlen, Args.length_toList]; omega
+                  refine ⟨assign (boundL [Term.var tv, Term.atom f, Term.int n]) as'.toList, ?_⟩
+                  simp only [List.map, substT, substA_ofList, substT_atom, substT_int]
+                  have hl' : n.toNat = as'.toList.length := by rw [hl, hlen]
+                  have hFmap : F.map (substT (assign (boundL [Term.var tv, Term.atom f, Term.int n]) as'.toList)) =
+                      as'.toList := by rw [← hF, hl', map_assign_freshVars]
+                  simp [hFmap]
+            · cases h
+    · cases h
+  · -- inspection of a compound
+    rename_i f as
+    cases h
+    have has : 0 < as.length := by
+      cases as with
+      | nil => exact absurd rfl (hwf f)
+      | cons _ _ => simp [Args.length]
+    apply exactInst_unifyAns
+    · simp [groundT_tuple, groundT]
+    · intro σ hσ
+      rw [substT_tuple] at hσ
+      have := tuple_inj hσ
+      simp only [List.map, List.cons.injEq, and_true] at this
+      simp [substT, functorT, this.1, this.2, length_substA, has]
+    · intro σ hr
+      simp only [List.map, substT, functorT, length_substA] at hr
+      rw [substT_tuple]
+      simp [hr.2.1, hr.2.2]
+  · -- inspection of an atomic term
+    rename_i hnv hnc
+    cases h
+    have hat : isAtomic t = true := by cases t <;> simp_all [isAtomic, isVar, isCompound]
+    have hg := groundT_of_isAtomic hat
+    apply exactInst_unifyAns
+    · simp [groundT_tuple, groundT, hg]
+    · intro σ hσ
+      rw [substT_tuple] at hσ
+      have := tuple_inj hσ
+      simp only [List.map, List.cons.injEq, and_true] at this
+      simp only [List.map, substT_ground σ t hg, this.1, this.2]
+      cases t <;> simp_all [functorT, isAtomic, isVar, isCompound]
+    · intro σ hr
+      simp only [List.map, substT_ground σ t hg] at hr
+      rw [substT_tuple]
+      cases t <;> simp_all [functorT, isAtomic, isVar, isCompound]
+
+theorem modeErrors_functor_var (v : Nat) (n a : Term) : modeErrors "functor" [.var v, n, a] =
+      (if isVar n ∨ isVar a then [instErr] else []) ++ mustBeIntOrVar a ++
+        (match a with | .int i => if i < 0 then [domainErr "not_less_than_zero" a] else [] | _ => []) ++
+        (if isCompound n then [typeErr "atomic" n] else []) ++
+        (match a with | .int i => if i > 0 ∧ isAtomic n ∧ !isAtom n then [typeErr "atom" n] else [] | _ => []) := rfl
+
+theorem optionalErrors_functor_var (v : Nat) (n : Term) (i : Int) : optionalErrors "functor" [.var v, n, .int i] =
+    if i > 1048576 then [resourceErr "memory"] else [] := rfl
+
+theorem C16_functor_errors (t name arity : Term) :
+    ErrorsOk "functor" [t, name, arity] (Rel.functor t name arity) := by
+  cases t with
+  | var v =>
+    cases arity with
+    | int i =>
+      apply errorsOk_of _ _ (modeErrors_functor_var v name _) (optionalErrors_functor_var v name i)
+      unfold Rel.functor
+      simp only [isVar, mustBeIntOrVar, isInt, allocLimit]
+      by_cases hneg : i < 0
+      · simp [hneg]
+      · by_cases h0 : i = 0
+        · subst h0
+          cases name <;> simp [isVar, isCompound, isAtomic, isAtom]
+        · have hpos : i > 0 := by omega
+          cases name <;> simp [isVar, isCompound, isAtomic, isAtom, hneg, h0, hpos]
+          by_cases hbig : 17592186044416 < i
+          · have : 1048576 < i := by omega
+            simp [hbig, this]
+          · simp [hbig]
+    | var _ => exact errorsOk_of _ [] (modeErrors_functor_var v name _) rfl (by simp [Rel.functor, isVar])
+    | atom _ => exact errorsOk_of _ [] (modeErrors_functor_var v name _) rfl (by simp [Rel.functor, isVar, mustBeIntOrVar, isInt])
+    | flt _ => exact errorsOk_of _ [] (modeErrors_functor_var v name _) rfl (by simp [Rel.functor, isVar, mustBeIntOrVar, isInt])
+    | str _ => exact errorsOk_of _ [] (modeErrors_functor_var v name _) rfl (by simp [Rel.functor, isVar, mustBeIntOrVar, isInt])
+    | app _ _ => exact errorsOk_of _ [] (modeErrors_functor_var v name _) rfl (by simp [Rel.functor, isVar, mustBeIntOrVar, isInt])
+  | atom _ => exact errorsOk_of [] [] rfl rfl (by simp [Rel.functor])
+  | int _ => exact errorsOk_of [] [] rfl rfl (by simp [Rel.functor])
+  | flt _ => exact errorsOk_of [] [] rfl rfl (by simp [Rel.functor])
+  | str _ => exact errorsOk_of [] [] rfl rfl (by simp [Rel.functor])
+  | app _ _ => exact errorsOk_of [] [] rfl rfl (by simp [Rel.functor])
+
+/-! ## arg/3 -/
+
+/-- arg/3 on a ground term, any pattern for the argument -/
+theorem C16_arg_exact_partial {n t a : Term} {ans : Answers} (hg : groundT t = true)
+    (h : Rel.arg n t a = .ok ans) : ExactInst argT [n, t, a] ans := by
+  unfold Rel.arg at h
+  simp only at h
+  split at h
+  · cases h
+  · rename_i f as
+    have hga : groundA as = true := by simpa [groundT] using hg
+    split at h
+    · cases h
+    · rename_i nv
+      split at h
+      · rename_i hout
+        cases h
+        apply exactInst_nil
+        rintro t' hr ⟨σ, rfl⟩
+        simp only [List.map, substT_int, substT, argT, toList_substA] at hr
+        obtain ⟨h1, h2⟩ := hr
+        have := (List.getElem?_eq_some_iff.mp h2).1
+        simp only [List.length_map, Args.length_toList] at this
+        simp only [Int.ofNat_eq_natCast] at hout
+        omega
+      · rename_i hin
+        split at h
+        · cases h
+        · rename_i hpos
+          split at h
+          · rename_i e he
+            cases h
+            have hge : groundT e = true := groundA_mem as hga e (List.mem_of_getElem? he)
+            apply exactInst_unifyAns hge
+            · intro σ hσ
+              simp only [List.map, substT_int, substT, argT, toList_substA, List.getElem?_map, he,
+                Option.map_some, hσ, substT_ground σ e hge]
+              exact ⟨by omega, trivial⟩
+            · intro σ hr
+              simp only [List.map, substT_int, substT, argT, toList_substA, List.getElem?_map, he,
+                Option.map_some, substT_ground σ e hge] at hr
+              simpa using hr.2.symm
+          · rename_i hnone
+            cases h
+            have := List.getElem?_eq_none_iff.mp hnone
+            simp only [Args.length_toList] at this
+            simp only [Int.ofNat_eq_natCast] at hin
+            omega
+    · cases h
+  · cases h
+
+example : Rel.arg (.int 2) (Term.a2 "f" (.atom "é") (.atom "€")) (.var 0) =
+    .ok [[.int 2, Term.a2 "f" (.atom "é") (.atom "€"), .atom "€"]] := by decide +kernel
+
+theorem modeErrors_arg (n t a : Term) : modeErrors "arg" [n, t, a] =
+    (if isVar n ∨ isVar t then [instErr] else []) ++ notLessThanZero n ++
+      (if isVar t || isCompound t then [] else [typeErr "compound" t]) := rfl
+
+theorem C16_arg_errors (n t a : Term) : ErrorsOk "arg" [n, t, a] (Rel.arg n t a) := by
+  apply errorsOk_of _ [] (modeErrors_arg n t a) rfl
+  unfold Rel.arg
+  cases t with
+  | app f as =>
+    cases n <;> simp [isVar, isCompound, notLessThanZero]
+    rename_i i
+    by_cases h0 : i = 0 ∨ (as.length : Int) < i
+    · simp [h0]
+    · simp only [h0, if_false]
+      by_cases hneg : i < 0
+      · simp [hneg]
+      · simp only [hneg, if_false]
+        split <;> simp <;> omega
+  | var _ => cases n <;> simp [isVar, isCompound, notLessThanZero, instErr_ne_typeErr]
+  | atom _ => cases n <;> simp [isVar, isCompound, notLessThanZero, instErr_ne_typeErr]
+  | int _ => cases n <;> simp [isVar, isCompound, notLessThanZero, instErr_ne_typeErr]
+  | flt _ => cases n <;> simp [isVar, isCompound, notLessThanZero, instErr_ne_typeErr]
+  | str _ => cases n <;> simp [isVar, isCompound, notLessThanZero, instErr_ne_typeErr]
+
+/-! ## =../2 -/
+
+/-- =../2 decomposing a ground compound or any atomic term, and constructing a term from a list
+    (of arbitrary, possibly non-ground, elements).  `hwf`: a compound being decomposed has an argument. -/
+theorem C16_univ_exact_partial {t l : Term} {ans : Answers}
+    (hg : ∀ f as, t = .app f as → groundT t = true ∧ 0 < as.length)
+    (h : Rel.univ t l = .ok ans) : ExactInst univT [t, l] ans := by
+  unfold Rel.univ at h
+  simp only at h
+  split at h
+  · -- construction from a proper list
+    rename_i tv
+    split at h
+    · cases h
+    · rename_i hproper
+      have htl := listErr_false_none hproper
+      split at h
+      · cases h
+      · rename_i hocc
+        have hocc' : occursT tv l = false := by simpa using hocc
+        split at h
+        · cases h
+        · -- [e], e atomic
+          rename_i e hes
+          have hl : l = Term.list [e] := list_eq_of_spine hes htl
+          split at h
+          · cases h
+          · cases h
+          · rename_i hnv hnc
+            cases h
+            have hat : isAtomic e = true := by cases e <;> simp_all [isAtomic, isVar, isCompound]
+            have hge := groundT_of_isAtomic hat
+            have hans : [Term.var tv, l].map (substT (bind1 tv e)) = [e, l] := by
+              simp [substT, bind1, substT_bind1_not_occurs tv e l hocc']
+            rw [hans]
+            refine ⟨?_, ?_, by simp⟩
+            · intro a ha; simp at ha; subst ha
+              refine ⟨?_, ⟨_, hans.symm⟩⟩
+              rw [hl]
+              cases e <;> simp_all [univT, isAtomic, isVar, isCompound]
+            · rintro a hr ⟨σ, rfl⟩
+              refine ⟨[e, l], by simp, ?_⟩
+              have hlσ : substT σ l = l := by
+                rw [hl, substT_list]; simp [substT_ground σ e hge, Term.nilT, substT]
+              simp only [List.map, hlσ] at hr ⊢
+              cases hs : substT σ (Term.var tv) with
+              | app f' as' =>
+                rw [hs, hl] at hr
+                simp only [univT, list_cons, list_nil] at hr
+                obtain ⟨hpos, heq⟩ := hr
+                have := (consT_inj heq).2
+                cases as' with
+                | nil => simp [Args.length] at hpos
+                | cons _ _ => simp [Args.toList, Term.nilT, Term.consT] at this
+              | var _ => rw [hs] at hr; simp [univT, isAtomic, isVar] at hr
+              | atom _ =>
+                rw [hs, hl] at hr; simp only [univT, isAtomic, isVar, isCompound] at hr
+                have := (consT_inj hr.2).1
+                rw [← this]; exact IsInstance.refl _
+              | int _ =>
+                rw [hs, hl] at hr; simp only [univT, isAtomic, isVar, isCompound] at hr
+                have := (consT_inj hr.2).1
+                rw [← this]; exact IsInstance.refl _
+              | flt _ =>
+                rw [hs, hl] at hr; simp only [univT, isAtomic, isVar, isCompound] at hr
+                have := (consT_inj hr.2).1
+                rw [← this]; exact IsInstance.refl _
+              | str _ =>
+                rw [hs, hl] at hr; simp only [univT, isAtomic, isVar, isCompound] at hr
+                have := (consT_inj hr.2).1
+                rw [← this]; exact IsInstance.refl _
+        · -- [f, a₁, …], f an atom
+          rename_i e rest hrest hes
+          have hl : l = Term.list (e :: rest) := list_eq_of_spine hes htl
+          split at h
+          · cases h
+          · rename_i f
+            cases h
+            have hans : [Term.var tv, l].map (substT (bind1 tv (.app f (Args.ofList rest)))) =
+                [.app f (Args.ofList rest), l] := by
+              simp [substT, bind1, substT_bind1_not_occurs tv _ l hocc']
+            rw [hans]
+            refine ⟨?_, ?_, by simp⟩
+            · intro a ha; simp at ha; subst ha
+              refine ⟨?_, ⟨_, hans.symm⟩⟩
+              simp only [univT, length_ofList, Args.toList_ofList, hl, and_true]
+              cases rest with
+              | nil => exact absurd rfl hrest
+              | cons _ _ => simp
+            · rintro a hr ⟨σ, rfl⟩
+              refine ⟨[.app f (Args.ofList rest), l], by simp, σ, ?_⟩
+              simp only [List.map, substT, substA_ofList]
+              have hlσ : substT σ l = Term.list (.atom f :: rest.map (substT σ)) := by
+                rw [hl, substT_list]; simp [Term.nilT, substT]
+              simp only [List.map, hlσ] at hr
+              cases hs : σ tv with
+              | app f' as' =>
+                simp only [substT, hs, univT] at hr
+                have := list_inj_nil hr.2
+                simp only [List.cons.injEq, Term.atom.injEq] at this
+                obtain ⟨rfl, hrest'⟩ := this
+                simp [substT, hs, hrest']
+              | var _ => simp [substT, hs, univT, isAtomic, isVar] at hr
+              | atom _ =>
+                simp only [substT, hs, univT] at hr
+                have := list_inj_nil hr.2
+                simp at this; exact absurd this.2 hrest
+              | int _ =>
+                simp only [substT, hs, univT] at hr
+                have := list_inj_nil hr.2
+                simp at this
+              | flt _ =>
+                simp only [substT, hs, univT] at hr
+                have := list_inj_nil hr.2
+                simp at this
+              | str _ =>
+                simp only [substT, hs, univT] at hr
+                have := list_inj_nil hr.2
+                simp at this
+          · cases h
+  · -- decomposition of a compound
+    rename_i f as
+    obtain ⟨hgt, has⟩ := hg f as rfl
+    split at h
+    · cases h
+    · cases h
+      have hga : groundA as = true := by simpa [groundT] using hgt
+      have hgl : groundT (Term.list (Term.atom f :: as.toList)) = true := by
+        rw [groundT_list]
+        simp only [List.all_cons, groundT, Bool.true_and, Term.nilT, Bool.and_true, List.all_eq_true]
+        exact groundA_mem as hga
+      apply exactInst_unifyAns hgl
+      · intro σ hσ
+        simp only [List.map, substT_ground σ _ hgt, hσ, univT, has, true_and]
+      · intro σ hr
+        simp only [List.map, substT_ground σ _ hgt, univT] at hr
+        exact hr.2
+  · -- an atomic term
+    rename_i hnv hnc
+    split at h
+    · cases h
+    · cases h
+      have hat : isAtomic t = true := by cases t <;> simp_all [isAtomic, isVar, isCompound]
+      have hgt := groundT_of_isAtomic hat
+      have hgl : groundT (Term.list [t]) = true := by simp [groundT_consT, hgt, Term.nilT, groundT]
+      apply exactInst_unifyAns hgl
+      · intro σ hσ
+        simp only [List.map, substT_ground σ _ hgt, hσ]
+        cases t <;> simp_all [univT, isAtomic, isVar, isCompound]
+      · intro σ hr
+        simp only [List.map, substT_ground σ _ hgt] at hr
+        cases t <;> simp_all [univT, isAtomic, isVar, isCompound]
+
+theorem modeErrors_univ_var (v : Nat) (l : Term) : modeErrors "univ" [.var v, l] =
+      listErrors false l ++
+        (match l.spine.1, l.spine.2 with
+          | [], .atom "[]" => [domainErr "non_empty_list" l]
+          | [h], .atom "[]" => if isVar h then [instErr] else if isCompound h then [typeErr "atomic" h] else []
+          | h :: _ :: _, .atom "[]" =>
+            if isVar h then [instErr] else if isAtom h then [] else [typeErr "atom" h]
+          | h :: _, .var _ => if isVar h then [] else if isCompound h then [typeErr "atomic" h, typeErr "atom" h] else
+              if isAtom h then [] else [typeErr "atom" h]
+          | _, _ => []) := rfl
+
+theorem modeErrors_univ_nonvar (t l : Term) (h : isVar t = false) : modeErrors "univ" [t, l] = listErrors true l := by
+  cases t <;> simp_all [isVar] <;> rfl
+
+/-- =../2 against the ISO table; a call `T =.. L` with `T` occurring in `L` (cyclic answer) is
+    outside the model -/
+theorem C16_univ_errors (t l : Term) (hocc : ∀ v, t = .var v → occursT v l = false) :
+    ErrorsOk "univ" [t, l] (Rel.univ t l) := by
+  cases t with
+  | var v =>
+    apply errorsOk_of _ [] (modeErrors_univ_var v l) rfl
+    have hocc' := hocc v rfl
+    unfold Rel.univ
+    simp only [hocc', Bool.false_eq_true, if_false]
+    rw [listErrors_eq]
+    cases hl : listErr false l l.spine.2 with
+    | some e => simp
+    | none =>
+      have htl := listErr_false_none hl
+      simp only [htl, Term.nilT, Option.toList_none, List.nil_append]
+      cases hes : l.spine.1 with
+      | nil => simp
+      | cons e rest =>
+        cases rest with
+        | nil => cases e <;> simp [isVar, isCompound]
+        | cons e2 rest2 => cases e <;> simp [isVar, isAtom]
+  | app f as =>
+    apply errorsOk_of _ [] (modeErrors_univ_nonvar _ l rfl) rfl
+    have h2 := instErr_not_mem_listErrors_true l
+    have h3 := listErrors_eq true l
+    unfold Rel.univ
+    cases hl : listErr true l l.spine.2 <;> simp_all
+  | atom _ =>
+    apply errorsOk_of _ [] (modeErrors_univ_nonvar _ l rfl) rfl
+    have h2 := instErr_not_mem_listErrors_true l
+    have h3 := listErrors_eq true l
+    unfold Rel.univ
+    cases hl : listErr true l l.spine.2 <;> simp_all
+  | int _ =>
+    apply errorsOk_of _ [] (modeErrors_univ_nonvar _ l rfl) rfl
+    have h2 := instErr_not_mem_listErrors_true l
+    have h3 := listErrors_eq true l
+    unfold Rel.univ
+    cases hl : listErr true l l.spine.2 <;> simp_all
+  | flt _ =>
+    apply errorsOk_of _ [] (modeErrors_univ_nonvar _ l rfl) rfl
+    have h2 := instErr_not_mem_listErrors_true l
+    have h3 := listErrors_eq true l
+    unfold Rel.univ
+    cases hl : listErr true l l.spine.2 <;> simp_all
+  | str _ =>
+    apply errorsOk_of _ [] (modeErrors_univ_nonvar _ l rfl) rfl
+    have h2 := instErr_not_mem_listErrors_true l
+    have h3 := listErrors_eq true l
+    unfold Rel.univ
+    cases hl : listErr true l l.spine.2 <;> simp_all
+
+/-! ## nth0/3, nth1/3 -/
+
+theorem nth_var_aux {base : Int} {v : Nat} {list elem : Term} (hg : groundT list = true) :
+    ExactInst (nthT base) [.var v, list, elem]
+      ((List.range list.spine.1.length).flatMap fun i =>
+        match list.spine.1[i]? with
+        | some e => unifyAns [.var v, list, elem] (tuple [.var v, elem]) (tuple [.int (base + Int.ofNat i), e])
+        | none => []) := by
+  have hges := ground_spine hg
+  have hkey : ∀ i e, list.spine.1[i]? = some e →
+      groundT (tuple [Term.int (base + Int.ofNat i), e]) = true := by
+    intro i e he
+    simp [groundT_tuple, groundT, hges e (List.mem_of_getElem? he)]
+  refine ⟨?_, ?_, ?_⟩
+  · intro t ht
+    simp only [List.mem_flatMap, List.mem_range] at ht
+    obtain ⟨i, hi, ht⟩ := ht
+    cases he : list.spine.1[i]? with
+    | none => simp [he] at ht
+    | some e =>
+      simp only [he] at ht
+      obtain ⟨θ, rfl, hθ, _⟩ := (unifyAns_ground (hkey i e he)).1 t ht
+      refine ⟨?_, ⟨θ.fn, rfl⟩⟩
+      rw [substT_tuple] at hθ
+      have := tuple_inj hθ
+      simp only [List.map, List.cons.injEq, and_true] at this
+      simp only [List.map, this.1, this.2, substT_ground _ _ hg, nthT, Relations.nth]
+      refine ⟨by simp only [Int.ofNat_eq_natCast]; omega, ?_⟩
+      have : (base + Int.ofNat i - base).toNat = i := by simp only [Int.ofNat_eq_natCast]; omega
+      rw [this, he]
+  · rintro t hr ⟨σ, rfl⟩
+    simp only [List.map, substT_ground _ _ hg] at hr ⊢
+    cases hn : substT σ (Term.var v) <;> simp only [hn, nthT] at hr
+    rename_i m
+    obtain ⟨hb, he⟩ := hr
+    have hi := (List.getElem?_eq_some_iff.mp he).1
+    have hσ : substT σ (tuple [Term.var v, elem]) =
+        tuple [.int (base + Int.ofNat (m - base).toNat), substT σ elem] := by
+      rw [substT_tuple]
+      simp only [List.map, hn]
+      congr 3
+      simp only [Int.ofNat_eq_natCast]; omega
+    obtain ⟨θ, hθ, habs⟩ := (unifyAns_ground (args := [.var v, list, elem]) (hkey _ _ he)).2.1 σ hσ
+    refine ⟨List.map (substT θ.fn) [Term.var v, list, elem], ?_, σ, ?_⟩
+    · simp only [List.mem_flatMap, List.mem_range]
+      exact ⟨(m - base).toNat, hi, by rw [he]; simp only; rw [hθ]; simp⟩
+    · simp [List.map, habs, hn, substT_ground _ _ hg]
+  · rw [List.Nodup, List.pairwise_flatMap]
+    constructor
+    · intro i _
+      split
+      · unfold unifyAns; split <;> simp
+      · simp
+    · apply List.Pairwise.imp_of_mem _ (List.nodup_range (n := list.spine.1.length))
+      intro i j _ _ hij x hx y hy hxy
+      subst hxy
+      cases hei : list.spine.1[i]? with
+      | none => simp [hei] at hx
+      | some ei =>
+        cases hej : list.spine.1[j]? with
+        | none => simp [hej] at hy
+        | some ej =>
+          simp only [hei] at hx
+          simp only [hej] at hy
+          obtain ⟨θ, rfl, hθ, _⟩ := (unifyAns_ground (hkey i ei hei)).1 _ hx
+          obtain ⟨θ', hxy, hθ', _⟩ := (unifyAns_ground (hkey j ej hej)).1 _ hy
+          rw [substT_tuple] at hθ hθ'
+          have h1 := tuple_inj hθ
+          have h2 := tuple_inj hθ'
+          simp only [List.map, List.cons.injEq, and_true] at h1 h2 hxy
+          rw [hxy.1, h2.1] at h1
+          simp only [Term.int.injEq, Int.ofNat_eq_natCast] at h1
+          omega
+
+/-- nth0/3 (`base = 0`) and nth1/3 (`base = 1`) on a ground list, index and element arbitrary
+    patterns: one answer per position whose element matches -/
+theorem C16_nth_exact_partial {base : Int} {n list elem : Term} {ans : Answers}
+    (hg : groundT list = true) (h : Rel.nth base n list elem = .ok ans) :
+    ExactInst (nthT base) [n, list, elem] ans := by
+  unfold Rel.nth at h
+  simp only at h
+  split at h
+  · split at h
+    · cases h
+    · cases h
+      exact nth_var_aux hg
+  · rename_i nv
+    split at h
+    · rename_i hlt
+      cases h
+      apply exactInst_nil
+      rintro t hr ⟨σ, rfl⟩
+      simp only [List.map, substT_int, nthT, Relations.nth] at hr
+      omega
+    · rename_i hge
+      split at h
+      · rename_i e he
+        cases h
+        have hge' := ground_spine hg e (List.mem_of_getElem? he)
+        apply exactInst_unifyAns hge'
+        · intro σ hσ
+          simp only [List.map, substT_int, substT_ground _ _ hg, nthT, Relations.nth, hσ, he, and_true]
+          omega
+        · intro σ hr
+          simp only [List.map, substT_int, substT_ground _ _ hg, nthT, Relations.nth, he] at hr
+          simpa using hr.2.symm
+      · rename_i hnone
+        split at h
+        · cases h
+        · cases h
+          apply exactInst_nil
+          rintro t hr ⟨σ, rfl⟩
+          simp only [List.map, substT_int, substT_ground _ _ hg, nthT, Relations.nth, hnone] at hr
+          exact absurd hr.2 (by simp)
+  · cases h
+
+theorem C16_nth0_exact_partial {n list elem : Term} {ans : Answers}
+    (hg : groundT list = true) (h : Rel.nth0 n list elem = .ok ans) : ExactInst (nthT 0) [n, list, elem] ans :=
+  C16_nth_exact_partial hg h
+
+theorem C16_nth1_exact_partial {n list elem : Term} {ans : Answers}
+    (hg : groundT list = true) (h : Rel.nth1 n list elem = .ok ans) : ExactInst (nthT 1) [n, list, elem] ans :=
+  C16_nth_exact_partial hg h
+
+example : Rel.nth1 (.var 0) (Term.list [.atom "a", .atom "é", .atom "a"]) (.atom "a") =
+    .ok [[.int 1, Term.list [.atom "a", .atom "é", .atom "a"], .atom "a"],
+         [.int 3, Term.list [.atom "a", .atom "é", .atom "a"], .atom "a"]] := by decide +kernel
+
+theorem nth_errors_aux (base : Int) (n l e : Term) :
+    let M := mustBeIntOrVar n ++ (if isVar n then listErrors false l else [])
+    let O := match n with | .int _ => listErrors false l | _ => []
+    (∀ err, Rel.nth base n l e = .error err → err ∈ M ++ O) ∧
+    (M = [] → O = [] → ∃ ans, Rel.nth base n l e = .ok ans) ∧
+    (instErr ∈ M → ∃ err, Rel.nth base n l e = .error err) := by
+  intro M O
+  simp only [M, O]
+  unfold Rel.nth
+  rw [listErrors_eq]
+  cases n with
+  | var v =>
+    simp only [mustBeIntOrVar, isVar, isInt]
+    cases hl : listErr false l l.spine.2 <;> simp
+  | int i =>
+    simp only [mustBeIntOrVar, isVar, isInt]
+    by_cases hlt : i < base
+    · simp [hlt]
+    · simp only [hlt, if_false]
+      cases he : l.spine.1[(i - base).toNat]? with
+      | some x => simp
+      | none => cases hl : listErr false l l.spine.2 <;> simp
+  | atom _ => simp [mustBeIntOrVar, isVar, isInt]
+  | flt _ => simp [mustBeIntOrVar, isVar, isInt]
+  | str _ => simp [mustBeIntOrVar, isVar, isInt]
+  | app _ _ => simp [mustBeIntOrVar, isVar, isInt]
+
+theorem C16_nth0_errors (n l e : Term) : ErrorsOk "nth0" [n, l, e] (Rel.nth0 n l e) := by
+  have h := nth_errors_aux 0 n l e
+  refine errorsOk_of _ _ rfl ?_ h
+  cases n <;> rfl
+
+theorem C16_nth1_errors (n l e : Term) : ErrorsOk "nth1" [n, l, e] (Rel.nth1 n l e) := by
+  have h := nth_errors_aux 1 n l e
+  refine errorsOk_of _ _ rfl ?_ h
+  cases n <;> rfl
 
 
 end PrologVerif.C16
